@@ -22,6 +22,7 @@ EXPLANATION = (
     "(no lossy pre-conversion of timestamps through float seconds), the schema declares timestamp-micros, the reader rebuilds "
     "timestamps with integer microsecond arithmetic from a UTC-aware epoch. NOT decided: fastavro's validation and encoding, "
     "float precision."
+    " Rules added after the sixth blind round: (R19.5) RecordDescriptor defines neither __len__ nor __bool__ (the writer tests the truth of self.desc); (R19.6 = R17.4 of C17, SplitWriter.write) the full part is finalised before the next one is opened."
 )
 RULE_SUMMARY = "instances: refusal sites, type-table rows, embedding sites, value-flow into writer.write"
 
